@@ -28,10 +28,11 @@ import (
 
 func init() {
 	core.Register(core.Check{ID: "C06", Level: "model_checking", Run: func(c *core.Ctx) {
+		waitArch := background(func() { curlVariantPasses(c, "C06") })
 		runC06(c, false)
 		historyPass(c, "C06")
 		reentrancyPass(c, "C06")
-		curlVariantPasses(c, "C06")
+		waitArch()
 	}})
 	core.Register(core.Check{ID: "C06purego", Level: "other", Run: func(c *core.Ctx) { runC06(c, true) }})
 }
